@@ -44,6 +44,10 @@ impl<'a, K> BSetIter<'a, K> {
     { unimplemented!() }
 }
 
+pub trait SetSource<K> { spec fn elems(&self) -> Set<K>; }
+impl<K> SetSource<K> for BTreeSet<K> { open spec fn elems(&self) -> Set<K> { self@ } }
+impl<'a, K> SetSource<K> for &'a BTreeSet<K> { open spec fn elems(&self) -> Set<K> { (**self)@ } }
+
 impl<K: Ord> BTreeSet<K> {
     #[verifier::external_body]
     pub fn new() -> (r: Self) ensures r@ == Set::<K>::empty() { unimplemented!() }
@@ -72,10 +76,15 @@ impl<K: Ord> BTreeSet<K> {
             forall|x: K| #[trigger] r@.contains(x) <==> (old(self)@.contains(x) && !klt(x, *k)),
     { unimplemented!() }
 
-    // Extend<K>::extend, restricted to another BTreeSet as the source
+    // Extend<K>::extend / Extend<&K>::extend, restricted to a BTreeSet (by value or by reference) as the source
     #[verifier::external_body]
-    pub fn extend(&mut self, other: BTreeSet<K>)
-        ensures final(self)@ == old(self)@.union(other@),
+    pub fn extend<S: SetSource<K>>(&mut self, other: S)
+        ensures final(self)@ == old(self)@.union(other.elems()),
+    { unimplemented!() }
+
+    #[verifier::external_body]
+    pub fn is_empty(&self) -> (r: bool)
+        ensures r == (forall|x: K| !self@.contains(x)),
     { unimplemented!() }
 
     #[verifier::external_body]
